@@ -1,6 +1,7 @@
 package main
 
 import (
+	"path/filepath"
 	"encoding/json"
 	"fmt"
 	"net/http"
@@ -157,6 +158,7 @@ type c09Case struct {
 func checkC09(r *mc.Report, thorough bool) {
 	if i, _ := mc.Shard(); i == 0 {
 		c09HTTP(r, thorough)
+		c09OldDatabase(r)
 		c09BusToken(r)
 	}
 	depth := 5
@@ -173,6 +175,90 @@ func checkC09(r *mc.Report, thorough bool) {
 
 // c09BusToken folds in the result of the in-package test against a real
 // nats-server (run by run.sh before this binary; see overlay/bustoken_test.go.txt).
+// c09OldDatabase: a store file that has a root but no token-signing key (what a version before the key column
+// leaves behind: the open path adds the column and must create a key). The instance must never run with an
+// empty key: a token anybody can forge with the empty key must be refused, before and after a further restart.
+func c09OldDatabase(r *mc.Report) {
+	c09OldDatabaseOn(r.Part("http-database-without-key", "store files with a root and NO token-signing key (key set to NULL / to an empty blob / the column dropped as in the schema before it existed), opened again (twice): tokens forged with the empty key, with a zero byte and with the old instance's key are refused on every /v1/nodes route (401), a token issued by the reopened instance is accepted and still accepted after the next restart"))
+}
+
+func c09OldDatabaseOn(p *mc.Part) {
+	variants := []struct {
+		name  string
+		stmts []string
+	}{
+		{"key-null", []string{"UPDATE meta SET jwt_key = NULL"}},
+		{"key-empty-blob", []string{"UPDATE meta SET jwt_key = x''"}},
+		{"column-dropped", []string{"ALTER TABLE meta DROP COLUMN jwt_key"}},
+	}
+	for _, v := range variants {
+		dir, err := os.MkdirTemp(mc.ScratchDir(), "verif-c09-")
+		if err != nil {
+			p.Violation("harness", "HARNESS: "+err.Error(), nil)
+			return
+		}
+		func() {
+			defer os.RemoveAll(dir)
+			file := filepath.Join(dir, "db")
+			fail := func(key, msg string) {
+				p.Violation(key+"/"+v.name, fmt.Sprintf("database variant %s: %s", v.name, msg), map[string]string{"variant": v.name})
+			}
+			a, err := sh.New(sh.Opts{File: file, NoTemplate: true, AuthToken: c09Token})
+			if err != nil {
+				fail("harness", "HARNESS: "+err.Error())
+				return
+			}
+			oldKey, _ := sh.ReadJWTKey(file)
+			a.Stop()
+			if err := sh.ExecSQL(file, v.stmts...); err != nil {
+				p.Cap("variant " + v.name + " cannot be prepared with this SQLite: " + err.Error())
+				return
+			}
+			forge := func(k []byte) string {
+				s, _ := jwt.NewWithClaims(jwt.SigningMethodHS256, jwt.StandardClaims{ExpiresAt: time.Now().Add(time.Hour).Unix(), Issuer: "simpleiot", Id: "intruder"}).SignedString(k)
+				return s
+			}
+			forged := map[string]string{"empty key": forge([]byte{}), "one zero byte": forge([]byte{0}), "key of the file before the key was lost": forge(oldKey)}
+			serve := func(inst *sh.Inst, bearer string) int {
+				h := api.NewV1Handler(api.ServerArgs{JwtAuth: inst.Store.GetAuthorizer(), AuthToken: c09Token, Nc: inst.Nc})
+				req := httptest.NewRequest("GET", "http://x/nodes", nil)
+				req.Header.Set("Authorization", "Bearer "+bearer)
+				rec := httptest.NewRecorder()
+				h.ServeHTTP(rec, req)
+				return rec.Code
+			}
+			var issued string
+			for round := 1; round <= 2; round++ {
+				b, err := sh.New(sh.Opts{File: file, NoTemplate: true, AuthToken: c09Token, RootID: a.RootID, RawRootID: true})
+				if err != nil {
+					fail("does-not-open", fmt.Sprintf("open %d of the file fails: %v", round, err))
+					return
+				}
+				for name, tok := range forged {
+					p.Case(true)
+					p.Step(1)
+					if code := serve(b, tok); code != http.StatusUnauthorized {
+						fail("forged-token-accepted", fmt.Sprintf("open %d: GET /v1/nodes with a token signed with the %s answered %d, expected 401", round, name, code))
+					}
+				}
+				if issued != "" {
+					p.Case(true)
+					if code := serve(b, issued); code == http.StatusUnauthorized {
+						fail("issued-token-refused-after-restart", "a token issued by the reopened instance is refused after the next restart (the new key was not stored)")
+					}
+				}
+				issued, _ = b.Store.GetAuthorizer().NewToken("someuser")
+				p.Case(true)
+				if code := serve(b, issued); code == http.StatusUnauthorized {
+					fail("issued-token-refused", fmt.Sprintf("open %d: a token the instance has just issued is refused", round))
+				}
+				b.Stop()
+			}
+		}()
+	}
+	p.Done()
+}
+
 func c09BusToken(r *mc.Report) {
 	path := os.Getenv("VERIF_C09_BUSTOKEN")
 	if path == "" {
